@@ -13,7 +13,7 @@ CHECKS = {
    "DESIGN.md section 5 C01"),
  "C02": (True, "exploration",
    "runtime monitoring: discoveries/assert_properties/is_done of completed real checks vs labels evaluated on an oracle reachable set",
-   "Random graphs with mixed always/sometimes properties (plus eventually bystanders) checked by BFS, DFS, on-demand and DFS+symmetry (mirror-symmetric graphs) at 1-8 threads; for every property the presence of a discovery is compared with the oracle, as are assert_properties and is_done. Exploration of sampled models, not all models.",
+   "Random graphs with mixed always/sometimes properties (plus eventually bystanders) checked by BFS, DFS, on-demand and DFS+symmetry (mirror-symmetric graphs) at 1-8 threads; for every property the presence of a discovery is compared with the oracle, as are assert_properties, is_done and the Checker helper methods (discovery, assert_any_discovery, assert_no_discovery, assert_discovery). Exploration of sampled models, not all models.",
    "Trusts the reachability oracle and the label generator; symmetric models are limited to an involution symmetry here (richer ones under C10).",
    "DESIGN.md section 5 C02"),
  "C03": (True, "exploration",
@@ -28,7 +28,7 @@ CHECKS = {
    "DESIGN.md section 5 C04"),
  "C05": (True, "exploration",
    "runtime monitoring + sanitizers: job-market event log (hooked under the market lock) checked against a sequential market specification, visited multisets/verdicts vs single-threaded run, real join under a watchdog with hang diagnosis, perturbation at hook points; TSan and Miri lanes in thorough",
-   "2-32 worker threads under seven perturbation profiles, tiny and default block sizes, large shared-block graphs, the Broker facade driven directly, stop reasons (exhaustion, finish condition, target, model panic). Monitors: exactly-once evaluation, verdict equality with the 1-thread run, market conservation/ordering spec over the event log, termination of join, panic surfacing. Thorough adds a ThreadSanitizer build of the same workload and Miri with many scheduler seeds. Schedules seen are counted (distinct interleavings), not enumerated.",
+   "2-32 worker threads under seven perturbation profiles, tiny and default block sizes, large shared-block graphs, the Broker facade driven directly, stop reasons (exhaustion, finish condition, target, model panic); the on-demand checker driven step by step (check_fingerprint requests along the oracle's frontier, then run_to_completion and join). Monitors: exactly-once evaluation, verdict equality with the 1-thread run, market conservation/ordering spec over the event log, termination of join, panic surfacing. Thorough adds a ThreadSanitizer build of the same workload and Miri with many scheduler seeds. Schedules seen are counted (distinct interleavings), not enumerated.",
    "Reach is limited to interleavings actually produced (OS scheduling, injected delays, Miri seeds); a late join while the market still changes is inconclusive.",
    "DESIGN.md section 5 C05"),
  "C06": (True, "exploration",
@@ -53,12 +53,12 @@ CHECKS = {
    "DESIGN.md section 5 C09"),
  "C11": (True, "exploration",
    "runtime monitoring: eventually-discoveries of every strategy vs a maximal-path (terminal or lasso) oracle on the graph",
-   "General graphs for the no-false-alarm half (any strategy, incl. simulation) and oracle-verified forests for exactness of the exhaustive checkers; 1-4 threads; property mixes.",
+   "General graphs for the no-false-alarm half (any strategy, incl. simulation, a quarter of the runs cut by a random depth limit) and oracle-verified forests for exactness of the exhaustive checkers; 1-4 threads; property mixes.",
    "Misses on non-forest graphs are allowed (documented limitation) and only counted.",
    "DESIGN.md section 5 C11"),
  "C12": (True, "exploration",
    "runtime monitoring: stop reason vs configuration on real runs; logical bounds on evaluations after timeout expiry measured in worker subprocesses; seed replay of first traces",
-   "Seven sub-checks (HasDiscoveries::matches vs definition; early stop only for a reason; target_state_count; target_max_depth incl. 1-thread BFS completeness below the limit; timeout expiry on unbounded models for all strategies and thread counts; unexpired timeout transparency; seed replay incl. a recording chooser).",
+   "Seven sub-checks (HasDiscoveries::matches vs definition; early stop only for a reason; target_state_count; target_max_depth incl. 1-thread BFS completeness below the limit; timeout expiry on effectively unbounded tree and chain models for all strategies and thread counts (a run that ends before its timeout does not count); unexpired timeout transparency; seed replay incl. a recording chooser).",
    "Timeout verdicts use logical bounds (evaluations started > 2.5 s after expiry <= 2 blocks per thread); a late join with few late evaluations is inconclusive.",
    "DESIGN.md section 5 C12"),
  "C13": (True, "exploration",
@@ -68,12 +68,12 @@ CHECKS = {
    "DESIGN.md section 5 C13"),
  "C14": (True, "exploration",
    "runtime monitoring: real SC tester vs brute-force sequential consistency by definition; clone-immutability and Lin-subset-of-SC monitors",
-   "Same history workloads as C08 against a program-order-only oracle; whenever the linearizability tester accepts the SC tester must; at every prefix a clone is extended and the original's Debug/Hash/==/len/verdict/serialization compared before and after (both testers).",
+   "Same history workloads as C08 (half of them recorded through on_invret where an invocation is directly followed by its return) against a program-order-only oracle; whenever the linearizability tester accepts the SC tester must; at every prefix a clone is extended and the original's Debug/Hash/==/len/verdict/serialization compared before and after (both testers).",
    "Same oracle budget as C08.",
    "DESIGN.md section 5 C14"),
  "C20": (True, "exploration",
    "runtime monitoring: results of real clock/map operations vs algebraic laws and an independent component-wise model",
-   "Random and related vector clocks (padding, one component off) and complete small spaces for pairs and triples: partial order laws, equality/hash compatibility, merge_max as least upper bound, incremented; dense maps vs a Vec model incl. order independence, gap/duplicate rejection, insert and rewrite under plans with ties.",
+   "Random and related vector clocks (padding, one component off) and complete small spaces for pairs and triples: partial order laws through partial_cmp and through the comparison operators, equality/hash compatibility, merge_max as least upper bound, incremented; dense maps vs a Vec model incl. order independence, gap/duplicate rejection, insert and rewrite under plans with ties.",
    "Components stay below u32::MAX (release build without overflow checks).",
    "DESIGN.md section 5 C20"),
  "C10": (True, "exploration",
@@ -88,12 +88,12 @@ CHECKS = {
    "DESIGN.md section 5 C15"),
  "C16": (True, "exploration",
    "runtime monitoring: prefix / exactly-once / ack-after-hand-over checker over send and hand-over logs of link-wrapped actors along hostile walks and real BFS runs",
-   "Link-wrapped actors with unique payloads over a lossy duplicating unordered network, hostile schedulers (reorder, duplicate, drop, resend) and the real BFS searching the same clauses as an always-property. One genuine defect (overtaken message acknowledged and never handed over) is recorded as a known finding and identified by its exact cause; every other violation is reported.",
+   "Link-wrapped actors with unique payloads (some reactions stateless) over a lossy duplicating unordered network; sends and hand-overs are recorded at the wrapped actors' handler boundary while the monitor re-executes each chosen step; hostile schedulers (reorder, duplicate, drop, resend) and the real BFS searching the same clauses as an always-property. One genuine defect (overtaken message acknowledged and never handed over) is recorded as a known finding and identified by its exact cause; every other violation is reported.",
    "The equality clause is checked through its safety core (a message neither pending nor handed over); actors do not restart.",
    "DESIGN.md section 5 C16"),
  "C17": (True, "exploration",
    "runtime monitoring: offline trace checker over the handler-invocation and datagram log of real spawn() runs on loopback UDP",
-   "Worker subprocesses run the real UDP runtime with instrumented actors; a driver sends scripted, garbage and oversized datagrams and receives the actors' output; the recorded log is checked for start-once-first, message causality and sender identity, one datagram per Send at the encoded address, timers firing only while armed and not before the latest lower bound, and state threading. Id/address conversions are checked on random and edge values.",
+   "Worker subprocesses run the real UDP runtime with instrumented actors; a driver sends scripted, garbage and oversized datagrams (scripts arm timers with identical deadlines, block in slow handlers, cancel timers from timeout handlers) and receives the actors' output; the recorded log is checked for start-once-first, message causality and sender identity, one datagram per Send at the encoded address, timers firing only while armed and not before the latest lower bound, and state threading. Id/address conversions are checked on random and edge values.",
    "Loopback UDP may drop: missing deliveries are bounded-progress misses, not violations; no upper bound on timer latency.",
    "DESIGN.md section 5 C17"),
  "C18": (True, "exploration",
